@@ -119,6 +119,15 @@ theorem limits_refuse (env : Env) (l : Limits) (r : Rec) (now : Int) (dur : Nat)
       rw [classify_of_precheck_some hp]
       rcases precheck_some_ne_none hp with rfl | rfl <;> simp [withOutcome]
 
+/-- The first execution of a record created at `t0` and reached `wait` ticks later is an invocation
+    EXACTLY when `wait < T` and `0 < N` (for the limits that are set). -/
+theorem fresh_invoked_iff (env : Env) (l : Limits) (t0 : Int) (wait dur : Nat) (x : Raised) :
+    (classify env l (fromScratch t0) (t0 + wait) dur x).invoked = true ↔
+      ((∀ T, l.timeout = some T → (wait : Int) < T) ∧ (∀ N, l.retries = some N → 0 < N)) := by
+  rw [classify_invoked_iff, precheck_none_iff]
+  simp only [timedOut, retriesOut, Rec.runtime, fromScratch]
+  cases l.timeout <;> cases l.retries <;> simp <;> omega
+
 /-! ## Whole histories with record continuity: any cycle times, batch positions, restarts between cycles
 
   `run` threads the record: every cycle sees what the previous one stored. The code re-reads the
@@ -626,12 +635,12 @@ theorem loop_delay_respected (env : Env) (l : Limits) (now : Int) (r : Rec) (scr
   rw [← loop_is_run]
   exact delay_respected_partial env l _ now r
 
-/-! ## Timers: the whole life of one timer (after the repair of finding C11-F1, commit af4d77a)
+/-! ## Timers: the whole life of one `_timer` task (after af4d77a, 9118944, a6c10de)
 
   `timerRun` has one script element per iteration of `_timer`'s loop and evaluates the same gate as
   every other driver (`awakened`); nothing about a failed timer is built into its definition: that a
   failed series is never executed again is DERIVED (`timer_failed_never_runs`) from the kept record
-  (`timerReset` resets only after a success) and the gate. -/
+  (`timerState` re-creates the record only after a success / before a first attempt) and the gate. -/
 
 def invokedOf (as : List Attempt) : List Attempt := as.filter (fun a => a.out.invoked)
 
@@ -640,62 +649,83 @@ def invokedOf (as : List Attempt) : List Attempt := as.filter (fun a => a.out.in
 def Spaced (a b : Attempt) : Prop :=
   a.merged ≤ b.time ∧ ∀ d, a.out.delay = some d → a.merged + d ≤ b.time
 
+/-- A record as a timer can have it: the count is not negative, and a finished record has made at
+    least one execution (`fromScratch` has 0 and is unfinished; every execution adds 1). -/
+def Rec.sane (r : Rec) : Prop := 0 ≤ r.retries ∧ (r.finished = true → r.retries ≠ 0)
+
+theorem fromScratch_sane (t : Int) : (fromScratch t).sane := ⟨by simp [fromScratch], by simp [fromScratch, Rec.finished]⟩
+
+theorem timerState_nonneg {r : Rec} (h0 : 0 ≤ r.retries) (now t : Int) : 0 ≤ (timerState r now t).retries := by
+  rw [timerState_retries]
+  unfold timerReset; split
+  · simp [fromScratch]
+  · exact h0
+
+theorem attemptAt_sane (env : Env) (l : Limits) (t : Int) (r : Rec) (x : Raised) (dur lag : Nat) (h0 : 0 ≤ r.retries) :
+    (attemptAt env l t r x dur lag).recAfter.sane := by
+  constructor <;> rw [attemptAt_rec_retries]
+  · omega
+  · intro _; omega
+
 /-- A timer whose record is a failure for good never executes anything again: every further
     iteration of its loop finds nothing awakened. -/
 theorem timer_failed_never_runs (env : Env) (l : Limits) (iv : Nat) (sh : Bool) (iu : Int) (script : List (Raised × Nat)) :
-    ∀ (now : Int) (r : Rec), r.failure = true → attempts (timerRun env l iv sh iu now r script) = [] := by
+    ∀ (now : Int) (r : Rec), r.sane → r.failure = true → attempts (timerRun env l iv sh iu now r script) = [] := by
   induction script with
-  | nil => intro now r _; rfl
+  | nil => intro now r _ _; rfl
   | cons s rest ih =>
-    intro now r h
+    intro now r hs h
     obtain ⟨x, dur⟩ := s
-    have hr : timerReset r now = r := timerReset_failure h now
+    have hst : timerState r now (timerAt now iu) = r := timerState_failure h (hs.2 (finished_of_failure h)) now _
     rcases timerRun_step env l iv sh iu now r x dur rest with ⟨hg, _⟩ | ⟨_, he⟩
-    · rw [hr, not_awakened_of_finished (finished_of_failure h)] at hg; cases hg
-    · rw [he, attempts_cons_idle, hr]; exact ih _ _ h
+    · rw [hst, not_awakened_of_finished (finished_of_failure h)] at hg; cases hg
+    · rw [he, attempts_cons_idle, hst]; exact ih _ _ hs h
 
 /-- After a final failure (PermanentError, permanent-mode error, retries or timeout exhausted) there is
-    no further attempt in the timer's life: an attempt that is followed by another one did not fail. -/
+    no further attempt in the task's life: an attempt that is followed by another one did not fail. -/
 theorem timer_failure_is_last (env : Env) (l : Limits) (iv : Nat) (sh : Bool) (iu : Int) (script : List (Raised × Nat)) :
-    ∀ (now : Int) (r : Rec),
+    ∀ (now : Int) (r : Rec), r.sane →
       (attempts (timerRun env l iv sh iu now r script)).Pairwise (fun a _ => a.recAfter.failure = false) := by
   induction script with
-  | nil => intro now r; exact List.Pairwise.nil
+  | nil => intro now r _; exact List.Pairwise.nil
   | cons s rest ih =>
-    intro now r
+    intro now r hs
     obtain ⟨x, dur⟩ := s
-    rcases timerRun_step env l iv sh iu now r x dur rest with ⟨_, he⟩ | ⟨_, he⟩
+    have hsa := attemptAt_sane env l (timerAt now iu) (timerState r now (timerAt now iu)) x dur 0
+      (timerState_nonneg hs.1 now _)
+    rcases timerRun_step env l iv sh iu now r x dur rest with ⟨_, he⟩ | ⟨hg, he⟩
     · rw [he, attempts_cons_att]
-      refine List.Pairwise.cons ?_ (ih _ _)
+      refine List.Pairwise.cons ?_ (ih _ _ hsa)
       intro b hb
-      cases hfa : (attemptAt env l (timerAt now iu) (timerReset r now) x dur 0).recAfter.failure with
+      cases hfa : (attemptAt env l (timerAt now iu) (timerState r now (timerAt now iu)) x dur 0).recAfter.failure with
       | false => rfl
-      | true => rw [timer_failed_never_runs _ _ _ _ _ _ _ _ hfa] at hb; cases hb
-    · rw [he, attempts_cons_idle]; exact ih _ _
+      | true => rw [timer_failed_never_runs _ _ _ _ _ _ _ _ hsa hfa] at hb; cases hb
+    · rw [he, attempts_cons_idle, (timerState_idle hg).1]; exact ih _ _ hs
 
 /-- The head attempt of a timer's remaining life continues the running series (same retry number as
     the record) or, after a success, starts a new one with retry 0; after a failure there is none. -/
 theorem timer_head_retry (env : Env) (l : Limits) (iv : Nat) (sh : Bool) (iu : Int) (script : List (Raised × Nat)) :
-    ∀ (now : Int) (r : Rec) (b : Attempt), (attempts (timerRun env l iv sh iu now r script)).head? = some b →
+    ∀ (now : Int) (r : Rec) (b : Attempt), r.sane →
+      (attempts (timerRun env l iv sh iu now r script)).head? = some b →
       (r.finished = false ∧ b.retry = r.retries) ∨ (r.finished = true ∧ r.failure = false ∧ b.retry = 0) := by
   induction script with
-  | nil => intro now r b h; simp [timerRun, attempts] at h
+  | nil => intro now r b _ h; simp [timerRun, attempts] at h
   | cons s rest ih =>
-    intro now r b h
+    intro now r b hs h
     obtain ⟨x, dur⟩ := s
     rcases timerRun_step env l iv sh iu now r x dur rest with ⟨hg, he⟩ | ⟨hg, he⟩
     · rw [he, attempts_cons_att] at h
       simp only [List.head?_cons, Option.some.injEq] at h
       subst h
-      simp only [attemptAt_retry]
+      simp only [attemptAt_retry, timerState_retries]
       cases hf : r.finished with
       | false => left; rw [timerReset_unfinished hf]; exact ⟨rfl, rfl⟩
       | true =>
         cases hn : r.failure with
-        | true => rw [timerReset_failure hn, not_awakened_of_finished hf] at hg; cases hg
+        | true => rw [timerState_failure hn (hs.2 hf), not_awakened_of_finished hf] at hg; cases hg
         | false => right; rw [timerReset_success hf hn]; exact ⟨rfl, rfl, rfl⟩
-    · rw [he, attempts_cons_idle, timerReset_idle hg] at h
-      exact ih _ _ b h
+    · rw [he, attempts_cons_idle, (timerState_idle hg).1] at h
+      exact ih _ _ b hs h
 
 /-- `retries = N`, per series: every invocation in a timer's life has a retry number below `N`… -/
 theorem timer_retry_lt (env : Env) (l : Limits) (N : Int) (hN : l.retries = some N) (iv : Nat) (sh : Bool) (iu : Int)
@@ -720,33 +750,35 @@ theorem timer_retry_lt (env : Env) (l : Limits) (N : Int) (hN : l.retries = some
     only right after a success. Hence at most `N` invocations per series, and with
     `timer_failure_is_last` a failed series is the last one. -/
 theorem timer_retry_steps (env : Env) (l : Limits) (iv : Nat) (sh : Bool) (iu : Int) (script : List (Raised × Nat)) :
-    ∀ (now : Int) (r : Rec) (n : Nat) (a b : Attempt),
+    ∀ (now : Int) (r : Rec) (n : Nat) (a b : Attempt), r.sane →
       (attempts (timerRun env l iv sh iu now r script))[n]? = some a →
       (attempts (timerRun env l iv sh iu now r script))[n + 1]? = some b →
       (b.retry = a.retry + 1 ∧ a.recAfter.finished = false) ∨ (b.retry = 0 ∧ a.recAfter.success = true) := by
   induction script with
-  | nil => intro now r n a b ha; simp [timerRun, attempts] at ha
+  | nil => intro now r n a b _ ha; simp [timerRun, attempts] at ha
   | cons s rest ih =>
-    intro now r n a b ha hb
+    intro now r n a b hs ha hb
     obtain ⟨x, dur⟩ := s
-    rcases timerRun_step env l iv sh iu now r x dur rest with ⟨_, he⟩ | ⟨_, he⟩
+    have hsa := attemptAt_sane env l (timerAt now iu) (timerState r now (timerAt now iu)) x dur 0
+      (timerState_nonneg hs.1 now _)
+    rcases timerRun_step env l iv sh iu now r x dur rest with ⟨_, he⟩ | ⟨hg, he⟩
     · rw [he, attempts_cons_att] at ha hb
       cases n with
       | succ m =>
         rw [List.getElem?_cons_succ] at ha hb
-        exact ih _ _ m a b ha hb
+        exact ih _ _ m a b hsa ha hb
       | zero =>
         rw [List.getElem?_cons_zero] at ha
         rw [List.getElem?_cons_succ, ← List.head?_eq_getElem?] at hb
         cases ha
-        rcases timer_head_retry env l iv sh iu rest _ _ b hb with ⟨hf, hr⟩ | ⟨hf, hn, hr⟩
+        rcases timer_head_retry env l iv sh iu rest _ _ b hsa hb with ⟨hf, hr⟩ | ⟨hf, hn, hr⟩
         · left; exact ⟨by rw [hr]; rfl, hf⟩
         · right
           refine ⟨hr, ?_⟩
           simp only [Rec.finished, hn, Bool.or_false] at hf
           exact hf
-    · rw [he, attempts_cons_idle] at ha hb
-      exact ih _ _ n a b ha hb
+    · rw [he, attempts_cons_idle, (timerState_idle hg).1] at ha hb
+      exact ih _ _ n a b hs ha hb
 
 /-- The count over the whole life: at most `N` invocations for the running series plus `N` for every
     success (each success opens one new series); a failure opens nothing. -/
@@ -755,33 +787,35 @@ def budget (N : Int) (r : Rec) : Nat :=
 
 theorem timer_invocations_bound (env : Env) (l : Limits) (N : Int) (hN : l.retries = some N) (iv : Nat)
     (sh : Bool) (iu : Int) (script : List (Raised × Nat)) :
-    ∀ (now : Int) (r : Rec),
+    ∀ (now : Int) (r : Rec), r.sane →
       (invokedOf (attempts (timerRun env l iv sh iu now r script))).length ≤
         budget N r + N.toNat * ((attempts (timerRun env l iv sh iu now r script)).filter
           (fun a => a.recAfter.success)).length := by
   induction script with
-  | nil => intro now r; simp [timerRun, attempts, invokedOf]
+  | nil => intro now r _; simp [timerRun, attempts, invokedOf]
   | cons s rest ih =>
-    intro now r
+    intro now r hs
     obtain ⟨x, dur⟩ := s
     rcases timerRun_step env l iv sh iu now r x dur rest with ⟨hg, he⟩ | ⟨hg, he⟩
     · rw [he, attempts_cons_att]
-      generalize hr0 : timerReset r now = r0 at hg
-      have hb0 : budget N r = (N - r0.retries).toNat := by
-        subst hr0
+      have hb0 : budget N r = (N - (timerState r now (timerAt now iu)).retries).toNat := by
+        rw [timerState_retries]
         cases hf : r.finished with
         | false =>
           rw [timerReset_unfinished hf]
           simp [budget, failure_false_of_unfinished hf, success_false_of_unfinished hf]
         | true =>
           cases hn : r.failure with
-          | true => rw [timerReset_failure hn, not_awakened_of_finished hf] at hg; cases hg
+          | true => rw [timerState_failure hn (hs.2 hf), not_awakened_of_finished hf] at hg; cases hg
           | false =>
-            have hs : r.success = true := by simpa [Rec.finished, hn] using hf
+            have hsu : r.success = true := by simpa [Rec.finished, hn] using hf
             rw [timerReset_success hf hn]
-            simp [budget, hn, hs, fromScratch]
+            simp [budget, hn, hsu, fromScratch]
+      have h1 := timerState_nonneg hs.1 now (timerAt now iu)
+      generalize timerState r now (timerAt now iu) = r0 at hb0 h1 ⊢
       generalize hA : attemptAt env l (timerAt now iu) r0 x dur 0 = A
-      have ih' := ih (timerNext iv sh A) A.recAfter
+      have hsa : A.recAfter.sane := by rw [← hA]; exact attemptAt_sane env l _ r0 x dur 0 h1
+      have ih' := ih (timerNext iv sh A) A.recAfter hsa
       have hAr : A.recAfter.retries = r0.retries + 1 := by rw [← hA]; rfl
       have hAo : A.out = classify env l r0 (timerAt now iu) dur x := by rw [← hA]; rfl
       simp only [invokedOf, List.filter_cons] at ih' ⊢
@@ -792,22 +826,22 @@ theorem timer_invocations_bound (env : Env) (l : Limits) (N : Int) (hN : l.retri
         rw [if_pos hi, List.length_cons]
         cases hfa : A.recAfter.failure with
         | true =>
-          have hs : A.recAfter.success = false := by
+          have hsu : A.recAfter.success = false := by
             rw [← hA] at hfa ⊢
             simp only [attemptAt, withOutcome] at hfa ⊢
-            cases h1 : (classify env l r0 (timerAt now iu) dur x).final <;> cases h2 : ((classify env l r0 (timerAt now iu) dur x).exc == Exc.none) <;>
-              simp_all
+            cases h1 : (classify env l r0 (timerAt now iu) dur x).final <;>
+              cases h2 : ((classify env l r0 (timerAt now iu) dur x).exc == Exc.none) <;> simp_all
           simp only [budget, hfa, if_true] at ih'
-          rw [hs]; simp only [Bool.false_eq_true, if_false]
+          rw [hsu]; simp only [Bool.false_eq_true, if_false]
           omega
         | false =>
-          cases hs : A.recAfter.success with
+          cases hsu : A.recAfter.success with
           | true =>
-            simp only [budget, hfa, hs, Bool.false_eq_true, if_false, if_true] at ih'
+            simp only [budget, hfa, hsu, Bool.false_eq_true, if_false, if_true] at ih'
             simp only [if_true, List.length_cons, Nat.mul_add, Nat.mul_one]
             omega
           | false =>
-            simp only [budget, hfa, hs, Bool.false_eq_true, if_false, hAr] at ih'
+            simp only [budget, hfa, hsu, Bool.false_eq_true, if_false, hAr] at ih'
             simp only [Bool.false_eq_true, if_false]
             omega
       · rw [if_neg hi]
@@ -817,43 +851,47 @@ theorem timer_invocations_bound (env : Env) (l : Limits) (N : Int) (hN : l.retri
           rw [← hA]; exact ((limits_refuse env l r0 (timerAt now iu) dur x _).2 hni).2.2.1
         have hsu : A.recAfter.success = false := by
           rw [← hA]; exact ((limits_refuse env l r0 (timerAt now iu) dur x _).2 hni).2.2.2
-        rw [timer_failed_never_runs _ _ _ _ _ _ _ _ hfa] at ih' ⊢
+        rw [timer_failed_never_runs _ _ _ _ _ _ _ _ hsa hfa] at ih' ⊢
         simp [hsu]
-    · rw [he, attempts_cons_idle]
-      have := ih (timerIdleNext iv sh (timerReset r now) (timerAt now iu)) (timerReset r now)
-      rw [timerReset_idle hg] at this ⊢
-      exact this
+    · rw [he, attempts_cons_idle, (timerState_idle hg).1]
+      exact ih _ _ hs
 
-/-- ONE WHOLE SERIES of a timer is the in-memory loop: from an unfinished record and once the idle wait is over (`iu ≤` the wake-up time), the timer's attempts
-    up to and including the first one that finishes the record are exactly `loopRun`'s (same times,
-    retry numbers, outcomes, records) — so everything proved for `loopRun` holds for every series. -/
+/-- ONE WHOLE SERIES of a timer is the in-memory loop: from an unfinished record that has made an
+    attempt (or is fresh at its first execution) and once the idle wait is over (`iu ≤` the wake-up
+    time), the timer's attempts up to and including the first one that finishes the record are
+    exactly `loopRun`'s (same times, retry numbers, outcomes, records) — so everything proved for
+    `loopRun` holds for every series. -/
 theorem timer_series_is_loop (env : Env) (l : Limits) (iv : Nat) (sh : Bool) (iu : Int) (script : List (Raised × Nat)) :
-    ∀ (now : Int) (r : Rec), r.finished = false → iu ≤ wakeTime r now →
+    ∀ (now : Int) (r : Rec), r.finished = false → 0 ≤ r.retries → iu ≤ wakeTime r now →
+      (r.retries = 0 → r = fromScratch (wakeTime r now)) →
       takeSeries (attempts (timerRun env l iv sh iu (wakeTime r now) r script)) = loopRun env l now r script := by
   induction script with
-  | nil => intro now r _ _; rfl
+  | nil => intro now r _ _ _ _; rfl
   | cons s rest ih =>
-    intro now r hf hiu
+    intro now r hf h0 hiu hfresh
     obtain ⟨x, dur⟩ := s
-    have hr : timerReset r (wakeTime r now) = r := timerReset_unfinished hf _
     have hta : timerAt (wakeTime r now) iu = wakeTime r now := timerAt_of_le hiu
+    have hr : timerState r (wakeTime r now) (wakeTime r now) = r := by
+      by_cases hz : r.retries = 0
+      · rw [timerState_fresh0 hf hz]; exact (hfresh hz).symm
+      · exact timerState_keep hf hz _ _
     rcases timerRun_step env l iv sh iu (wakeTime r now) r x dur rest with ⟨_, he⟩ | ⟨hg, _⟩
-    · rw [he, attempts_cons_att, hr, hta]
+    · rw [he, attempts_cons_att, hta, hr]
       simp only [takeSeries, loopRun, hf, Bool.false_eq_true, if_false]
       cases hfa : (attemptAt env l (wakeTime r now) r x dur 0).recAfter.finished with
       | true => simp [loopRun_finished _ _ _ _ _ hfa]
       | false =>
         simp only [Bool.false_eq_true, if_false, timerNext, hfa]
-        rw [ih _ _ hfa (by
+        rw [ih _ _ hfa (by rw [attemptAt_rec_retries]; omega) (by
           have h1 := wakeTime_ge (attemptAt env l (wakeTime r now) r x dur 0).recAfter
             (attemptAt env l (wakeTime r now) r x dur 0).merged
           have h2 := attemptAt_merged_ge env l (wakeTime r now) r x dur 0
-          omega)]
-    · rw [hr, hta, awakened_wakeTime hf] at hg; cases hg
+          omega) (by intro hz; rw [attemptAt_rec_retries] at hz; omega)]
+    · rw [hta, hr, awakened_wakeTime hf] at hg; cases hg
 
 /-- `timeout = T` over a timer's whole life: no invocation starts `T` or more after the start of its
-    own series (`recAfter.started` is the series' `started`: the record of a series is created by
-    `from_scratch` at its first iteration and keeps `started`). -/
+    own series (`recAfter.started` is the series' `started`; since 9118944 that is the moment of the
+    series' first execution, after the idle wait — see `timer_first_of_series_invoked`). -/
 theorem timer_timeout_bound (env : Env) (l : Limits) (T : Int) (hT : l.timeout = some T) (iv : Nat) (sh : Bool) (iu : Int)
     (script : List (Raised × Nat)) :
     ∀ (now : Int) (r : Rec) (a : Attempt), a ∈ attempts (timerRun env l iv sh iu now r script) →
@@ -875,57 +913,83 @@ theorem timer_timeout_bound (env : Env) (l : Limits) (T : Int) (hT : l.timeout =
 
 theorem timerRun_lower (env : Env) (l : Limits) (iv : Nat) (sh : Bool) (iu : Int) (script : List (Raised × Nat)) :
     ∀ (now : Int) (r : Rec) (b : Attempt), b ∈ attempts (timerRun env l iv sh iu now r script) →
-      now ≤ b.time ∧ (r.finished = false → ∀ D, r.delayed = some D → D ≤ b.time) := by
+      now ≤ b.time ∧ (r.finished = false → r.retries ≠ 0 → ∀ D, r.delayed = some D → D ≤ b.time) := by
   induction script with
   | nil => intro now r b h; cases h
   | cons s rest ih =>
     intro now r b h
     obtain ⟨x, dur⟩ := s
+    have h4 := timerAt_ge now iu
     rcases timerRun_step env l iv sh iu now r x dur rest with ⟨hg, he⟩ | ⟨hg, he⟩
     · rw [he, attempts_cons_att] at h
       rcases List.mem_cons.1 h with rfl | h'
-      · refine ⟨by simpa using timerAt_ge now iu, fun hf D hD => ?_⟩
-        rw [timerReset_unfinished hf] at hg
+      · refine ⟨by simpa using h4, fun hf hz D hD => ?_⟩
+        rw [timerState_keep hf hz] at hg
         simpa using awakened_delayed_le hg hD
       · have h1 := (ih _ _ b h').1
-        have h2 := timerNext_ge iv sh (attemptAt env l (timerAt now iu) (timerReset r now) x dur 0)
-        have h3 := attemptAt_merged_ge env l (timerAt now iu) (timerReset r now) x dur 0
-        have h4 := timerAt_ge now iu
-        refine ⟨by omega, fun hf D hD => ?_⟩
-        rw [timerReset_unfinished hf] at hg
+        have h2 := timerNext_ge iv sh (attemptAt env l (timerAt now iu) (timerState r now (timerAt now iu)) x dur 0)
+        have h3 := attemptAt_merged_ge env l (timerAt now iu) (timerState r now (timerAt now iu)) x dur 0
+        refine ⟨by omega, fun hf hz D hD => ?_⟩
+        rw [timerState_keep hf hz] at hg
         have := awakened_delayed_le hg hD
         omega
-    · rw [he, attempts_cons_idle, timerReset_idle hg] at h
+    · rw [he, attempts_cons_idle, (timerState_idle hg).1] at h
       obtain ⟨h1, h2⟩ := ih _ _ b h
       have h3 := timerIdleNext_ge iv sh r (timerAt now iu)
-      have h4 := timerAt_ge now iu
       exact ⟨by omega, h2⟩
 
 /-- "never sooner than the requested delay or backoff" over a timer's whole life: every later
     attempt — of the same or of a later series — starts no earlier than the merge of an earlier
     outcome plus the delay it asked for. -/
 theorem timer_delay_respected (env : Env) (l : Limits) (iv : Nat) (sh : Bool) (iu : Int) (script : List (Raised × Nat)) :
-    ∀ (now : Int) (r : Rec), (attempts (timerRun env l iv sh iu now r script)).Pairwise Spaced := by
+    ∀ (now : Int) (r : Rec), 0 ≤ r.retries → (attempts (timerRun env l iv sh iu now r script)).Pairwise Spaced := by
   induction script with
-  | nil => intro now r; exact List.Pairwise.nil
+  | nil => intro now r _; exact List.Pairwise.nil
   | cons s rest ih =>
-    intro now r
+    intro now r h0
     obtain ⟨x, dur⟩ := s
-    rcases timerRun_step env l iv sh iu now r x dur rest with ⟨_, he⟩ | ⟨_, he⟩
+    have h1' := timerState_nonneg h0 now (timerAt now iu)
+    rcases timerRun_step env l iv sh iu now r x dur rest with ⟨_, he⟩ | ⟨hg, he⟩
     · rw [he, attempts_cons_att]
-      refine List.Pairwise.cons ?_ (ih _ _)
+      refine List.Pairwise.cons ?_ (ih _ _ (by rw [attemptAt_rec_retries]; omega))
       intro b hb
       obtain ⟨h1, h2⟩ := timerRun_lower env l iv sh iu rest _ _ b hb
-      have h3 := timerNext_ge iv sh (attemptAt env l (timerAt now iu) (timerReset r now) x dur 0)
+      have h3 := timerNext_ge iv sh (attemptAt env l (timerAt now iu) (timerState r now (timerAt now iu)) x dur 0)
       refine ⟨by omega, fun d hd => ?_⟩
-      have hnf : (attemptAt env l (timerAt now iu) (timerReset r now) x dur 0).recAfter.finished = false := by
+      have hnf : (attemptAt env l (timerAt now iu) (timerState r now (timerAt now iu)) x dur 0).recAfter.finished = false := by
         rw [attemptAt_finished, attemptAt_out]
         exact classify_delay_not_final env l _ _ dur x d (by simpa using hd)
-      exact h2 hnf _ (attemptAt_delayed env l (timerAt now iu) _ x dur 0 d hd)
-    · rw [he, attempts_cons_idle]; exact ih _ _
+      exact h2 hnf (by rw [attemptAt_rec_retries]; omega) _ (attemptAt_delayed env l (timerAt now iu) _ x dur 0 d hd)
+    · rw [he, attempts_cons_idle, (timerState_idle hg).1]; exact ih _ _ h0
 
--- non-vacuity: a timer (interval 10) whose function raises PermanentError is executed once; the
--- following iterations find nothing awakened (the record is kept, the loop sleeps its interval)
+/-- "T after the FIRST attempt", for timers (9118944): the first iteration of a series — a fresh
+    task, or the iteration after a success — IS an invocation, however long the idle wait was, as
+    soon as `0 < T` and `0 < N`; its record is created at that moment (`started = time`). -/
+theorem timer_first_of_series_invoked (env : Env) (l : Limits) (iv : Nat) (sh : Bool) (iu now : Int)
+    (r : Rec) (x : Raised) (dur : Nat) (rest : List (Raised × Nat))
+    (hr : r.finished = true ∧ r.failure = false ∨ r = fromScratch now)
+    (hT : ∀ T, l.timeout = some T → 0 < T) (hN : ∀ N, l.retries = some N → 0 < N) :
+    ∃ a, (timerRun env l iv sh iu now r ((x, dur) :: rest)).head? = some (.att a) ∧ a.out.invoked = true ∧
+      a.retry = 0 ∧ a.time = timerAt now iu ∧ a.recAfter.started = a.time := by
+  have hr0 : timerState r now (timerAt now iu) = fromScratch (timerAt now iu) := by
+    rcases hr with ⟨hf, hn⟩ | rfl
+    · exact timerState_success hf hn now _
+    · exact timerState_fresh0 rfl rfl now _
+  rcases timerRun_step env l iv sh iu now r x dur rest with ⟨_, he⟩ | ⟨hg, _⟩
+  · rw [he, hr0]
+    refine ⟨_, rfl, ?_, rfl, rfl, rfl⟩
+    have key := (fresh_invoked_iff env l (timerAt now iu) 0 dur x).2
+      ⟨fun T h => by have := hT T h; omega, hN⟩
+    simpa using key
+  · rw [hr0, fromScratch_awakened] at hg; cases hg
+
+-- regression of the repaired timer half of C11-F3 (was `timer_idle_timeout_never_invoked_witness`):
+-- `idle = 2`, `timeout = 1`, `interval = 1`: invoked at 2, 3, 4, each a fresh series started at its call
+example : ((attempts (timerRun ⟨.temporary, 60⟩ ⟨none, some 1, none, none⟩ 1 false 2 0 (fromScratch 0)
+    [(.ok, 0), (.ok, 0), (.ok, 0)])).map (fun a => (a.time, a.out.invoked, a.recAfter.started))) =
+    [(2, true, 2), (3, true, 3), (4, true, 4)] := by decide
+-- a timer (interval 10) whose function raises PermanentError is executed once; the following
+-- iterations find nothing awakened (the record is kept, the loop sleeps its interval)
 example : timerRun ⟨.temporary, 60⟩ ⟨none, none, none, none⟩ 10 false 0 0 (fromScratch 0)
     [(.permanent, 0), (.permanent, 0), (.ok, 0)] =
     [.att (attemptAt ⟨.temporary, 60⟩ ⟨none, none, none, none⟩ 0 (fromScratch 0) .permanent 0 0),
@@ -943,58 +1007,51 @@ example : ((attempts (timerRun ⟨.temporary, 60⟩ ⟨none, some 25, none, some
     [(.arbitrary, 1), (.arbitrary, 1), (.arbitrary, 1), (.ok, 0)])).map (fun a => (a.time, a.out.invoked, a.out.exc))) =
     [(0, true, .raised), (11, true, .raised), (22, true, .timeout)] := by decide
 
+/-! ## A timer across re-spawns (finding C11-F4, repaired by a6c10de)
+
+  A task whose series failed for good puts the handler into `memory.forever_stopped`; after a stop with
+  a reason (filter mismatch, pause) `process_spawning_cause` does not spawn it again (`respawnRun`). -/
+
+/-- Over the timer's whole existence for the object — every task, every re-spawn — an attempt that
+    is followed by another one did not fail: after a final failure the function is never invoked again. -/
+theorem timer_respawn_failure_is_last (env : Env) (l : Limits) (iv : Nat) (sh : Bool)
+    (tasks : List (Int × List (Raised × Nat))) :
+    (attempts (respawnRun env l iv sh tasks)).Pairwise (fun a _ => a.recAfter.failure = false) := by
+  induction tasks with
+  | nil => exact List.Pairwise.nil
+  | cons tk rest ih =>
+    obtain ⟨t0, script⟩ := tk
+    simp only [respawnRun]
+    rw [attempts_append]
+    have h1 := timer_failure_is_last env l iv sh t0 script t0 (fromScratch t0) (fromScratch_sane t0)
+    cases hany : (attempts (timerRun env l iv sh t0 t0 (fromScratch t0) script)).any (fun a => a.recAfter.failure) with
+    | true => simpa [attempts] using h1
+    | false =>
+      simp only [Bool.false_eq_true, if_false]
+      refine List.pairwise_append.2 ⟨h1, ih, ?_⟩
+      intro a ha b _
+      have := List.any_eq_false.1 hany a ha
+      simpa using this
+
+-- regression of C11-F4 (was `timer_respawn_runs_again_witness`): the function raises PermanentError at 0;
+-- the task is stopped (filters mismatch) and the object matches again at 6: nothing is spawned
+example : ((attempts (respawnRun ⟨.temporary, 60⟩ ⟨none, none, none, none⟩ 1 false
+    [(0, [(.permanent, 0), (.ok, 0)]), (6, [(.permanent, 0)])])).map
+    (fun a => (a.time, a.retry, a.out.invoked, a.recAfter.failure))) = [(0, 0, true, true)] := by decide
+-- … while a timer stopped in the middle of a retry series IS re-spawned, from scratch
+example : ((attempts (respawnRun ⟨.temporary, 60⟩ ⟨none, none, none, some 5⟩ 1 false
+    [(0, [(.arbitrary, 0)]), (6, [(.ok, 0)])])).map (fun a => (a.time, a.retry, a.recAfter.success))) =
+    [(0, 0, false), (6, 0, true)] := by decide
+
 /-! ## "T after the FIRST attempt": the code measures from the record's creation (finding C11-F3)
 
   Full statement (property): the timeout clock starts with the first attempt, hence a handler is
   recorded as failed by timeout only after at least one invocation.
-  False of the code: `started` is stamped when the record is created (`State.from_scratch()` at the
-  top of the cycle / before a timer's idle wait), the strict pre-check runs when the handler's TURN
-  comes. Exact characterisation + witnesses: -/
-
-/-- The first execution of a record created at `t0` and reached `wait` ticks later is an invocation
-    EXACTLY when `wait < T` and `0 < N` (for the limits that are set). -/
-theorem fresh_invoked_iff (env : Env) (l : Limits) (t0 : Int) (wait dur : Nat) (x : Raised) :
-    (classify env l (fromScratch t0) (t0 + wait) dur x).invoked = true ↔
-      ((∀ T, l.timeout = some T → (wait : Int) < T) ∧ (∀ N, l.retries = some N → 0 < N)) := by
-  rw [classify_invoked_iff, precheck_none_iff]
-  simp only [timedOut, retriesOut, Rec.runtime, fromScratch]
-  cases l.timeout <;> cases l.retries <;> simp <;> omega
-
-/-- Guarded positive form for timers: the first iteration of a series (fresh or after a success) is
-    an invocation when the idle wait is shorter than the timeout and `retries > 0`. -/
-theorem timer_first_of_series_invoked_partial (env : Env) (l : Limits) (iv : Nat) (sh : Bool) (iu now : Int)
-    (r : Rec) (x : Raised) (dur : Nat) (rest : List (Raised × Nat))
-    (hr : r.finished = true ∧ r.failure = false ∨ r = fromScratch now)
-    (hT : ∀ T, l.timeout = some T → timerAt now iu - now < T) (hN : ∀ N, l.retries = some N → 0 < N) :
-    ∃ a, (timerRun env l iv sh iu now r ((x, dur) :: rest)).head? = some (.att a) ∧ a.out.invoked = true ∧
-      a.retry = 0 ∧ a.time = timerAt now iu := by
-  have hr0 : timerReset r now = fromScratch now := by
-    rcases hr with ⟨hf, hn⟩ | rfl
-    · exact timerReset_success hf hn now
-    · exact timerReset_unfinished rfl now
-  rcases timerRun_step env l iv sh iu now r x dur rest with ⟨_, he⟩ | ⟨hg, _⟩
-  · rw [he, hr0]
-    refine ⟨_, rfl, ?_, rfl, rfl⟩
-    have hw := timerAt_ge now iu
-    have key := (fresh_invoked_iff env l now (timerAt now iu - now).toNat dur x).2
-      ⟨fun T h => by have := hT T h; omega, hN⟩
-    have e : now + ((timerAt now iu - now).toNat : Int) = timerAt now iu := by omega
-    rw [e] at key
-    exact key
-  · rw [hr0, fromScratch_awakened] at hg; cases hg
-
-/-- NEGATION (finding C11-F3, timers): `idle = 2`, `timeout = 1`, `interval = 1`: the series' record is
-    created at 0, the idle wait ends at 2: `HandlerTimeoutError` before the first call; the failed record
-    is kept for ever: the function is NEVER invoked. -/
-theorem timer_idle_timeout_never_invoked_witness :
-    ∃ (env : Env) (l : Limits) (script : List (Raised × Nat)), l.timeout = some 1 ∧
-      ((timerRun env l 1 false 2 0 (fromScratch 0) script).map
-        (fun e => match e with
-          | .att a => (a.time, a.out.invoked, a.out.exc == .timeout, a.recAfter.failure)
-          | .idle t d => (t, false, false, d)
-          | _ => (0, false, false, false))) =
-        [(2, false, true, true), (3, false, false, true), (4, false, false, true)] :=
-  ⟨⟨.temporary, 60⟩, ⟨none, some 1, none, none⟩, [(.ok, 0), (.ok, 0), (.ok, 0)], rfl, by decide⟩
+  False of the code for change handlers and sub-handlers: `started` is stamped when the record is
+  created (`State.from_scratch()` at the top of the cycle), the strict pre-check runs when the
+  handler's TURN comes (after the siblings selected before it; under `asap` in a later cycle).
+  For timers it holds since 9118944 (`timer_first_of_series_invoked`, above).
+  Exact characterisation + witness: -/
 
 /-- NEGATION (finding C11-F3, batches): `timeout = 10`; a sibling handler of the same cycle runs 50
     ticks first (`wait = 50`): the handler is recorded as timed out without ever being invoked. -/
@@ -1004,21 +1061,6 @@ theorem timed_out_before_first_invocation_witness :
       ((attempts (run env l 0 (fromScratch 0) steps)).map (fun a => (a.time, a.out.exc == .timeout, a.recAfter.failure))) =
         [(50, true, true)] :=
   ⟨⟨.temporary, 60⟩, ⟨none, some 10, none, none⟩, [.cycle 0 50 .ok 0 0, .cycle 5 0 .ok 0 0], rfl, by decide, by decide⟩
-
-/-! ## A timer across re-spawns (finding C11-F4)
-
-  Full statement (property, docs/timers.rst "stops forever"): after a permanent failure the timer's
-  function is never invoked again, over the timer's whole existence for the object.
-  Proved per `_timer` task: `timer_failed_never_runs`, `timer_failure_is_last` (guard: no re-spawn).
-  False across a stop-with-reason + re-spawn (filter mismatch and re-match, operator pause/resume): -/
-
-/-- NEGATION (finding C11-F4): the function raises PermanentError at 0; the task is stopped (filters
-    mismatch) and spawned again at 6: invoked again, `retry = 0`, from a fresh record. -/
-theorem timer_respawn_runs_again_witness :
-    ∃ (env : Env) (l : Limits),
-      ((attempts (respawnRun env l 1 false [(0, [(.permanent, 0), (.ok, 0)]), (6, [(.permanent, 0)])])).map
-        (fun a => (a.time, a.retry, a.out.invoked, a.recAfter.failure))) = [(0, 0, true, true), (6, 0, true, true)] :=
-  ⟨⟨.temporary, 60⟩, ⟨none, none, none, none⟩, by decide⟩
 
 /-! ## In-memory loops never sleep past their timeout -/
 
